@@ -13,9 +13,8 @@ func verifPoint(point string) {
 	}
 }
 
-// VerifResetGlobals clears the process-wide note and numbering registries so that a
-// single-document baseline can be reproduced inside one process.
+// VerifResetGlobals marks the start of a new behaviour for the verification harness. It used
+// to clear the process-wide note and numbering registries; those registries belong to the
+// document now, so there is nothing left to reset. Kept because the harness calls it.
 func VerifResetGlobals() {
-	globalFootnoteManager = nil
-	globalNumberingManager = nil
 }
